@@ -117,6 +117,7 @@ func (c *nodeConn) sendVersion(now time.Time) {
 	v.Timestamp = time.Unix(now.Add(n.skew).Unix(), 0)
 	c.send(v)
 	c.sentVer = true
+	c.verEnd = c.nodeEnd.Written() // the version message ends here in this connection's byte stream
 }
 
 // parse pulls complete frames out of the bytes the service wrote.
@@ -184,6 +185,7 @@ type connFlags struct {
 	admittedLive     bool
 	misbehaved       string // forbidden | contra : the reply carrying it has been queued
 	misDelivered     bool
+	verEnd           int // offset at which the node's version message ends
 	nGhChecked       int // getheaders of the service seen on this connection
 	misEnd           int // offset (bytes written by the node) at which the offending message ends
 	ghAtMis          int
